@@ -24,6 +24,14 @@
 (*   Mutate   a peer changes the serialised document (MutationClass x      *)
 (*            PathClass)                                                   *)
 (*   Verify   verifier.Verify / VerifyVP: the ordered sequence of checks   *)
+(*   IssueExt / SetBit   an EXTERNAL issuer issues a credential with an     *)
+(*            entry in its own status list (of any legal size) and revokes  *)
+(*            it there (family "status")                                    *)
+(*   OpBegin / OpEnd / Age / Download / Finish   the issuer node's status   *)
+(*            list as SHARED STATE: Revoke and the download of the list     *)
+(*            (re-issued when the stored one expires) as two-phase          *)
+(*            operations (reads before the row lock / the locked section),  *)
+(*            in every interleaving (family "race")                         *)
 (*                                                                         *)
 (* Deviations of the code from the statement are named by the boolean      *)
 (* CONSTANTS below: all TRUE = prescriptive variant (TLC proves the three  *)
@@ -45,7 +53,13 @@ CONSTANTS
     DidstoreStopsAtDeactivation, \* TRUE: resolving a did:nuts document AT A TIME after its deactivation fails.
                         \*       FALSE = the code as it is: didstore.Resolve skips deactivated versions and returns the
                         \*       last ACTIVE version that is not younger than the resolve time
-    Families,           \* subset of {"vc","vpsig","vpvc","mut"}
+    ReadsWholeList,     \* TRUE: the verifier decodes a status list of ANY length (the specification only fixes a minimum of
+                        \*       16kB). FALSE: it reads the minimum length only, entries beyond it are "not in the list"
+                        \*       (which verifier.Verify treats as a soft failure: the credential is accepted)
+    ReloadUnderLock,    \* TRUE: Revoke and the re-issue of an expiring StatusList2021Credential build the list from the
+                        \*       revocations they read INSIDE the locked section. FALSE: from what they read before the lock
+    RaceOps,            \* subset of {"one","two"}: one or two concurrent Revoke operations next to the download
+    Families,           \* subset of {"vc","vpsig","vpvc","vpmulti","mut","status","race"}
     Hist                \* TRUE: record the action history and print the cases (generation)
 
 Now == 9
@@ -93,7 +107,8 @@ Base == [fam |-> None, kind |-> None, fmt |-> None, store |-> "sql", kh |-> "sta
          trusted |-> TRUE, allowUntrusted |-> FALSE, revoked |-> FALSE, checkSig |-> TRUE,
          presenter |-> "subject", holder |-> "signer", subjects |-> "one", vcFmt |-> None, vcState |-> "ok", verifyVCs |-> TRUE,
          where |-> "top", efmt |-> None, mclass |-> None, pclass |-> None,
-         seq |-> <<>>, entry |-> "verifier"]
+         seq |-> <<>>, entry |-> "verifier",
+         list |-> None, size |-> None, pos |-> None, src |-> None, ops |-> None]
 
 Formats == {"ldp", "jwt"}
 
@@ -163,6 +178,45 @@ AnyElem(x, P(_)) == \E i \in 1..Len(x.seq) : P(x.seq[i])
 NotOfHolder(e) == e = "other-subject"
 Defective(e) == ~ElemVerifies(e)
 
+(***************************************************************************)
+(* Family "status": "is not revoked" when the revocation is a bit in a     *)
+(* StatusList2021Credential.  The list is the node's own (always 16kB, the *)
+(* minimum of the specification) or that of an external issuer, who may    *)
+(* publish a list of any length >= the minimum:                            *)
+(*   size  min = 16384 bytes, min+1 = 16385, double = 32768, large = 131072 *)
+(*   pos   first = entry 0, last-min = last entry of a minimum list,       *)
+(*         first-beyond = first entry after that, last = last of the list  *)
+(*   src   fresh = the verifying node downloads the list for this check,   *)
+(*         cached = it has the list from a check a moment ago              *)
+(*   entry verifier.Verify, POST .../verifier/vc, or the credential is     *)
+(*         carried by a presentation of its subject (VerifyVP)             *)
+(* A revoked credential has its bit set; an unrevoked one has both         *)
+(* neighbouring bits set (the lookup must address exactly its own entry).  *)
+(***************************************************************************)
+Sizes == {"min", "min+1", "double", "large"}
+Positions == {"first", "last-min", "first-beyond", "last"}
+PosIn(sz) == IF sz = "min" THEN {"first", "last-min"} ELSE Positions
+BeyondMin(p) == p \in {"first-beyond", "last"}
+StatusCases == {[Base EXCEPT !.fam = "status", !.kind = "vc", !.fmt = f, !.list = l, !.size = sz, !.pos = p, !.revoked = rv,
+                             !.src = s, !.entry = en, !.at = Now] :
+              f \in Formats, l \in {"own", "ext"}, sz \in Sizes, p \in Positions, rv \in BOOLEAN, s \in {"fresh", "cached"},
+              en \in {"verifier", "api", "vp"}}
+WellFormedStatus(x) == (x.list = "own" => x.size = "min") /\ x.pos \in PosIn(x.size)
+\* does the verifying node find the bit of a revoked credential
+Listed(x) == x.revoked /\ (ReadsWholeList \/ ~BeyondMin(x.pos))
+CarriedByVP(x) == x.fam = "status" /\ x.entry = "vp"
+
+(***************************************************************************)
+(* Family "race": two credentials c1, c2 of one issuer on one status list  *)
+(* page of the producing node.  R1 = Revoke(c1), R2 = Revoke(c2) (ops =    *)
+(* "two"), S = a download of the list from the node (Credential()).        *)
+(***************************************************************************)
+RaceCases == {[Base EXCEPT !.fam = "race", !.kind = "vc", !.fmt = f, !.list = "own", !.size = "min", !.ops = o, !.at = Now] :
+              f \in Formats, o \in RaceOps}
+Ops == {"R1", "R2", "S"}
+CredOf(o) == IF o = "R1" THEN "c1" ELSE "c2"
+OpsOf(x) == IF x.ops = "two" THEN Ops ELSE {"R1", "S"}
+
 MutationClass == {"set-value", "change-type", "wrap-array", "unwrap-array", "remove-member", "rename-member",
                   "duplicate-member", "add-undefined-member", "add-defined-member", "reorder-array",
                   "duplicate-element", "remove-element", "add-element", "signature", "swap"}
@@ -195,54 +249,121 @@ Cases == (IF "vc" \in Families THEN VCCases ELSE {}) \cup
          (IF "vpsig" \in Families THEN VPSigCases ELSE {}) \cup
          (IF "vpvc" \in Families THEN VPVcCases ELSE {}) \cup
          (IF "vpmulti" \in Families THEN VPMultiCases ELSE {}) \cup
-         (IF "mut" \in Families THEN {c \in MutCases : WellFormedMut(c)} ELSE {})
+         (IF "mut" \in Families THEN {c \in MutCases : WellFormedMut(c)} ELSE {}) \cup
+         (IF "status" \in Families THEN {c \in StatusCases : WellFormedStatus(c)} ELSE {}) \cup
+         (IF "race" \in Families THEN RaceCases ELSE {})
 
 VARIABLES
     pc,        \* "start" | "chosen" | "issued" | "presented" | "mutated" | "done"
     c,         \* the case
     doc,       \* abstract attributes of the document under test
     verdict,   \* result of Verify: "ok" or the check that refused the document; "any" = not predicted
+    sl,        \* family "race": the status list page of the producing node and the operations in flight
     hist
-vars == <<pc, c, doc, verdict, hist>>
-view == <<pc, c, doc, verdict>>
+vars == <<pc, c, doc, verdict, sl, hist>>
+view == <<pc, c, doc, verdict, sl>>
 Log(e) == hist' = IF Hist THEN Append(hist, e) ELSE hist
 
 NoDoc == [signer |-> None, vmOwner |-> None, issued |-> 0, expires |-> 0, own |-> FALSE, mutated |-> FALSE,
-          vpSigner |-> None, vpCreated |-> 0, vpExpires |-> 0]
+          vpSigner |-> None, vpCreated |-> 0, vpExpires |-> 0, bit |-> FALSE]
 
-Init == pc = "start" /\ c = Base /\ doc = NoDoc /\ verdict = None /\ hist = <<>>
+\* revs   credentials with a revocation row (committed)          stored  bits of the stored (= served) StatusList2021Credential
+\* age    "stale": the stored credential is about to expire, a download has to re-issue it
+\* ph     phase of each operation: idle, read (stands between its reads and its locked section), done
+\* snap   the revocations the operation saw before the lock       acked   credentials whose Revoke returned success
+NoSL == [revs |-> {}, stored |-> {}, age |-> "fresh", aged |-> FALSE, ph |-> [o \in Ops |-> "idle"], snap |-> [o \in Ops |-> {}],
+         acked |-> {}, downloads |-> 0]
+
+Init == pc = "start" /\ c = Base /\ doc = NoDoc /\ verdict = None /\ sl = NoSL /\ hist = <<>>
 
 Choose(x) ==
     /\ pc = "start" /\ c' = x /\ pc' = "chosen"
-    /\ Log([a |-> "Choose"]) /\ UNCHANGED <<doc, verdict>>
+    /\ Log([a |-> "Choose"]) /\ UNCHANGED <<doc, verdict, sl>>
 
 \* issuer.Issue: the producing node signs with the first assertion key K of its own DID document; proof.created = issuanceDate
 Issue ==
-    /\ pc = "chosen" /\ c.vm = "issuer"
+    /\ pc = "chosen" /\ c.vm = "issuer" /\ c.list # "ext"
     /\ doc' = [NoDoc EXCEPT !.signer = "K", !.vmOwner = "d", !.own = TRUE,
                             !.issued = IF c.kind = "vc" THEN 4 ELSE 2,
                             !.expires = IF c.kind = "vc" THEN c.exp ELSE 0]
-    /\ pc' = "issued" /\ Log([a |-> "Issue"]) /\ UNCHANGED <<c, verdict>>
+    /\ pc' = "issued" /\ Log([a |-> "Issue"]) /\ UNCHANGED <<c, verdict, sl>>
 
 \* an attacker e (a resolvable DID with a valid key KE) names d as issuer but signs with his own key and verification method
 Forge ==
     /\ pc = "chosen" /\ c.vm \in Attackers
     /\ doc' = [NoDoc EXCEPT !.signer = "KE", !.vmOwner = "e", !.issued = 4, !.expires = c.exp]
-    /\ pc' = "issued" /\ Log([a |-> "Forge"]) /\ UNCHANGED <<c, verdict>>
+    /\ pc' = "issued" /\ Log([a |-> "Forge"]) /\ UNCHANGED <<c, verdict, sl>>
 
 \* wallet.BuildPresentation(credentials, options, signer): signed by the first assertion key of the signer
 Present ==
-    /\ pc = "issued" /\ c.kind = "vp"
+    /\ pc = "issued" /\ (c.kind = "vp" \/ CarriedByVP(c)) /\ (c.fam = "status" => doc.bit = c.revoked)
     /\ doc' = [doc EXCEPT !.vpSigner = IF c.presenter = "subject" THEN "d" ELSE "e",
                           !.vpCreated = 4, !.vpExpires = c.exp,
                           !.own = c.presenter = "subject" /\ c.holder # "other" /\ c.subjects # "two-mixed" /\ ~Forged(c.vcState)
                                   /\ ~AnyElem(c, Defective) /\ ~AnyElem(c, NotOfHolder)]
-    /\ pc' = "presented" /\ Log([a |-> "Present"]) /\ UNCHANGED <<c, verdict>>
+    /\ pc' = "presented" /\ Log([a |-> "Present"]) /\ UNCHANGED <<c, verdict, sl>>
 
 Mutate ==
     /\ c.fam = "mut" /\ pc = (IF c.kind = "vp" THEN "presented" ELSE "issued")
     /\ doc' = [doc EXCEPT !.mutated = TRUE, !.own = FALSE]
-    /\ pc' = "mutated" /\ Log([a |-> "Mutate", m |-> c.mclass, p |-> c.pclass]) /\ UNCHANGED <<c, verdict>>
+    /\ pc' = "mutated" /\ Log([a |-> "Mutate", m |-> c.mclass, p |-> c.pclass]) /\ UNCHANGED <<c, verdict, sl>>
+
+\* an external issuer (resolvable DID, own key, trusted by the verifying node) issues a credential whose credentialStatus
+\* points into ITS status list, which it serves itself
+IssueExt ==
+    /\ pc = "chosen" /\ c.list = "ext"
+    /\ doc' = [NoDoc EXCEPT !.signer = "K", !.vmOwner = "d", !.issued = 4]
+    /\ pc' = "issued" /\ Log([a |-> "IssueExt"]) /\ UNCHANGED <<c, verdict, sl>>
+
+\* the issuer revokes: own list = issuer.Revoke on the producing node, external list = the bit is set in the served list
+SetBit ==
+    /\ pc = "issued" /\ c.fam = "status" /\ c.revoked /\ ~doc.bit
+    /\ doc' = [doc EXCEPT !.bit = TRUE]
+    /\ Log([a |-> "SetBit"]) /\ UNCHANGED <<pc, c, verdict, sl>>
+
+(***************************************************************************)
+(* Family "race": vcr/revocation/statuslist2021_issuer.go.  Every          *)
+(* operation first reads without a lock (isManaged, the stored credential  *)
+(* and its expiry, the issuer, the signing key), then opens ONE SQL        *)
+(* transaction that locks the credentialRecord row, loads the revocations, *)
+(* signs the list and stores it.  A transaction is an atomic step.         *)
+(***************************************************************************)
+InRace == c.fam = "race" /\ pc = "issued"
+Bits(o, now) == IF ReloadUnderLock THEN now ELSE sl.snap[o]
+
+\* the stored StatusList2021Credential gets old: less than the re-issue margin is left
+Age ==
+    /\ InRace /\ ~sl.aged
+    /\ sl' = [sl EXCEPT !.age = "stale", !.aged = TRUE]
+    /\ Log([a |-> "Age"]) /\ UNCHANGED <<pc, c, doc, verdict>>
+
+\* the operation runs up to the point where it opens its transaction; a download of a list that is valid for long enough
+\* returns the stored credential at once
+OpBegin(o) ==
+    /\ InRace /\ o \in OpsOf(c) /\ sl.ph[o] = "idle"
+    /\ sl' = IF o = "S" /\ sl.age = "fresh" THEN [sl EXCEPT !.ph[o] = "done"]
+              ELSE [sl EXCEPT !.ph[o] = "read", !.snap[o] = sl.revs]
+    /\ Log([a |-> "OpBegin", o |-> o, tx |-> ~(o = "S" /\ sl.age = "fresh")]) /\ UNCHANGED <<pc, c, doc, verdict>>
+
+OpEnd(o) ==
+    /\ InRace /\ sl.ph[o] = "read"
+    /\ sl' = IF o = "S"
+              THEN [sl EXCEPT !.ph[o] = "done", !.stored = Bits(o, sl.revs), !.age = "fresh"]
+              ELSE [sl EXCEPT !.ph[o] = "done", !.revs = sl.revs \cup {CredOf(o)}, !.acked = sl.acked \cup {CredOf(o)},
+                              !.stored = Bits(o, sl.revs) \cup {CredOf(o)}, !.age = "fresh"]
+    /\ Log([a |-> "OpEnd", o |-> o]) /\ UNCHANGED <<pc, c, doc, verdict>>
+
+\* a verifier node checks both credentials with a fresh download of the list: a complete download operation
+Download ==
+    /\ InRace /\ c.ops = "one" /\ sl.downloads < 1
+    /\ sl' = [sl EXCEPT !.downloads = sl.downloads + 1, !.age = "fresh", !.stored = IF sl.age = "stale" THEN sl.revs ELSE sl.stored]
+    /\ Log([a |-> "Download"]) /\ UNCHANGED <<pc, c, doc, verdict>>
+
+\* all operations have returned; both nodes verify both credentials.  verdict = what they say about the revoked ones
+Finish ==
+    /\ InRace /\ \A o \in OpsOf(c) : sl.ph[o] = "done"
+    /\ verdict' = IF sl.acked \subseteq sl.stored THEN "revoked" ELSE "ok"
+    /\ pc' = "done" /\ Log([a |-> "Finish", res |-> verdict']) /\ UNCHANGED <<c, doc, sl>>
 
 (***************************************************************************)
 (* Which mutations change something the statement protects.                *)
@@ -306,19 +427,24 @@ VerifyVP(x, d, at) ==
     ELSE "ok"
 
 Verify ==
-    /\ pc = (IF c.fam = "mut" THEN "mutated" ELSE IF c.kind = "vp" THEN "presented" ELSE "issued")
+    /\ c.fam # "race"
+    /\ pc = (IF c.fam = "mut" THEN "mutated" ELSE IF c.kind = "vp" \/ CarriedByVP(c) THEN "presented" ELSE "issued")
+    /\ c.fam = "status" => doc.bit = c.revoked
     /\ verdict' =
-         IF c.fam = "mut" THEN
+         IF c.fam = "status" THEN
+              (IF ~Listed(c) THEN "ok" ELSE IF c.entry = "vp" THEN "invalid-vc" ELSE "revoked")
+         ELSE IF c.fam = "mut" THEN
               (IF ~Semantic(c) THEN "any"
                ELSE IF F11Applies(c) \/ SwapApplies(c) THEN "ok"
                ELSE "rejected")
          ELSE IF c.kind = "vc" THEN VerifyVC(c, doc, c.revoked, c.trusted, c.allowUntrusted, c.checkSig, c.at)
          ELSE VerifyVP(c, doc, c.at)
-    /\ pc' = "done" /\ Log([a |-> "Verify", res |-> verdict']) /\ UNCHANGED <<c, doc>>
+    /\ pc' = "done" /\ Log([a |-> "Verify", res |-> verdict']) /\ UNCHANGED <<c, doc, sl>>
 
 \* (the guard stands in front of the quantifier so that TLC builds the set of cases in the initial state only)
 ChooseAny == pc = "start" /\ \E x \in Cases : Choose(x)
-Next == ChooseAny \/ Issue \/ Forge \/ Present \/ Mutate \/ Verify
+Next == ChooseAny \/ Issue \/ Forge \/ Present \/ Mutate \/ Verify \/ IssueExt \/ SetBit
+        \/ Age \/ (\E o \in Ops : OpBegin(o) \/ OpEnd(o)) \/ Download \/ Finish
 Spec == Init /\ [][Next]_vars
 
 (***************************************************************************)
@@ -327,7 +453,9 @@ Spec == Init /\ [][Next]_vars
 \* the conjuncts the statement requires of every document reported as valid; Failing = the ones that do not hold
 If(b, name) == IF b THEN {} ELSE {name}
 Failing(x) ==
-    IF x.kind = "vc" THEN
+    IF x.fam = "race" THEN {"revoked"}        \* at the end c1 (and c2) are revoked: Revoke has returned success
+    ELSE IF x.fam = "status" THEN If(~x.revoked, "revoked")
+    ELSE IF x.kind = "vc" THEN
         \* signed by a key that the claimed issuer's DID document authorises for assertions at the validation time
         If(x.checkSig => (x.vm = "issuer" /\ AuthorisedAt(KeyLog(x.kh), "K", x.at)), "unauthorised-key") \cup
         If(InWindow(4, x.exp, x.at), "outside-window") \cup          \* lies within its validity window
@@ -343,7 +471,8 @@ Failing(x) ==
         If((x.verifyVCs /\ x.subjects # "none") => (CarriedVC(x) = "ok" /\ ~AnyElem(x, Defective)), "invalid-credential")
 Conjuncts(x) == Failing(x) = {}
 \* output of the node's own issuer / wallet from coherent input
-Own(x) == IF x.kind = "vc" THEN x.vm = "issuer"
+Own(x) == IF x.fam \in {"status", "race"} THEN x.list = "own"
+          ELSE IF x.kind = "vc" THEN x.vm = "issuer"
           ELSE x.presenter = "subject" /\ x.holder # "other" /\ x.subjects # "two-mixed" /\ ~Forged(x.vcState)
                /\ ~AnyElem(x, Defective) /\ ~AnyElem(x, NotOfHolder)
 
@@ -355,6 +484,9 @@ Done == pc = "done"
 AcceptOnlyIf == (Done /\ c.fam # "mut" /\ verdict = "ok") => Conjuncts(c)
 TamperEvident == (Done /\ c.fam = "mut" /\ Semantic(c)) => verdict # "ok"
 OwnOutputVerifies == (Done /\ c.fam # "mut" /\ Own(c) /\ Conjuncts(c)) => verdict = "ok"
+\* "is not revoked", in every state: the producing node verifies against the stored list (managed lists are never refreshed),
+\* any other node against what a download hands out -- the same bits.  Every credential whose Revoke has returned is in it.
+RevokedRejected == c.fam = "race" => sl.acked \subseteq sl.stored
 TypeOK == /\ pc \in {"start", "chosen", "issued", "presented", "mutated", "done"}
           /\ Done => verdict # None
 =============================================================================
